@@ -75,5 +75,11 @@ CHECKS = {
         "text": "TLC checks the code-shaped poll loop against its environment (concurrent waker calls, SIGWINCH, peer input/drain, short writes, timeouts of every kind): a completed wake is always in the pipe until read, a pipe read queues exactly one Wake, inputs are conserved, and under fairness of the polling thread a pending wake is read while polls remain. The model is bound to the code by trace validation: seeded sessions of the real UnixTerminal on a pty (wake threads, SIGWINCH, typed keys, frames up to 300 kB with slow peers, frame drops, polls with zero/finite/no timeout, release after normal use / quit / double quit / pending output) log hook events and harness events under one atomic sequence; PollTrace requires every event to be a step of the specification - event queue FIFO incl. while output is pending, every wake followed by a waker read and a delivered Wake, SIGWINCH -> Resize, term signal -> Quit, line settings restored and equal to those at open, closing sequence seen by the peer.",
         "note": "Interleavings are exhaustive in the model only; pty sessions sample the kernel's schedules. Real time is not modelled (finite timeouts and a bounded quiescence loop stand for 'bounded time').",
     },
+    "C20": {
+        "level": "exploration",
+        "technique": "TLA+ specification of the xterm 256-colour palette and the linear-light metric in integer fixed point with a sound rounding slack; real encoder output for colours (all 2^24 in the thorough tier) judged by TLC",
+        "text": "Every colour of the tier's set (quick: step-8 lattice x all b, all near-neutral colours, slabs around cube midpoints, ~320k colours; thorough: all 2^24, exhaustive) is encoded by the real TTYEncoder as foreground, background and underline colour under each depth. TLC judges: the 256-colour entry lies in 16..255 and is not provably farther than any of the 240 entries (squared distance in 2^14 fixed point from the exact sRGB transfer function; the separable bound makes the 240-way minimum cheap), all three roles agree, the grey level is the nearest of {0,.33,.66,1} by integer luminance (hence monotone), and true-colour components are unchanged.",
+        "note": "A choice within the rounding slack of the optimum (about 1e-4 relative) is accepted; perceptual closeness beyond the library's own metric is not judged.",
+    },
 }
 
